@@ -28,8 +28,7 @@ class Cloner:
         N = World()
         N.frames = [cp(F) for F in W.frames]
         N.g = W.g
-        N.dom = dict(W.dom)
-        N.dom_base = W.dom_base
+        N.dd = W.dd
         N.decided = dict(W.decided)
         N.done = W.done
         N.result = cp(W.result)
